@@ -48,6 +48,14 @@ func runReplay(path string) int {
 		}
 		return 1
 	}
+	if len(ops) == 1 && strings.HasPrefix(ops[0], "straggler ") {
+		out := runStraggler(ops[0])
+		fmt.Printf("   %s\n     impl : %s\n     expect: ok <nothing writes the destination after Deserialize has returned>\n", ops[0], out)
+		if strings.HasPrefix(out, "ok") {
+			return 0
+		}
+		return 1
+	}
 	if len(ops) == 1 && strings.HasPrefix(ops[0], "chain ") {
 		out := runAliasChain(ops[0])
 		fmt.Printf("   %s\n     impl : %s\n     expect: ok <every live document reads as it did when it was made>\n", ops[0], out)
